@@ -17,15 +17,20 @@ import TlsModel.RsaDecrypt
   * `self` of an RSAKey: the attributes decrypt reads (`n`, `d`, `key_type`, `hasPrivateKey()`,
     the cached `_key_hash`, absent = `none`) and, as parameters, what it calls out to:
     `_rawPrivateKeyOp` (python_rsakey.py), `secureHash(·, "sha256")`, `secureHMAC(·, ·, "sha256")`.
-  * cryptomath helpers as specified by their docstrings: `numBits`/`numBytes` (= int.bit_length,
-    byte_length; of |x| for negative x), `bytesToNumber` (big endian), `numberToByteArray(x, k)`
-    (big endian on k bytes, keeping the low k bytes when x is longer; OverflowError for x < 0).
+  * cryptomath helpers `numBits`/`numBytes` (= int.bit_length, byte_length; of |x| for negative x),
+    `bytesToNumber` (big endian), `numberToByteArray(x, k)` (big endian on k bytes, keeping the low k
+    bytes when x is longer; OverflowError for x < 0): these are no assumptions any more —
+    translate/gen_cryptomath.py regenerates cryptomath.py/compat.py and Props/C10.lean, Props/C11.lean
+    prove the regenerated functions equal to these definitions (`gen_numBits_eq` …).
 -/
 namespace Tls.PyE
 open Tls Tls.CT
 
 inductive Err where
   | valueError | assertionError | stopIteration | other | fuel
+  | overflowError | zeroDivisionError | indexError
+  /-- tlslite.errors: InvalidSignature, EncodingError, MessageTooLongError, MaskTooLongError, UnknownRSAType -/
+  | invalidSignature | encodingError | messageTooLong | maskTooLong | unknownRSAType
   deriving DecidableEq, Repr
 
 abbrev M := Except Err
@@ -89,8 +94,11 @@ def zipBytes (a b : Bytes) : List (Int × Int) :=
 def numBits (x : Int) : Int := (Tls.RsaDec.numBits x.natAbs : Int)
 def numBytes (x : Int) : Int := (Tls.RsaDec.numBytes x.natAbs : Int)
 def bytesToNumber (b : Bytes) : Int := (beDecode b : Int)
+/-- `numberToByteArray(x, k)` (big endian): the low `k` bytes of `x`, zero-padded; nothing for `k ≤ 0`;
+    OverflowError for a negative `x` (proved of the regenerated cryptomath.py:
+    `gen_numberToByteArray_eq`) -/
 def numberToByteArray (x k : Int) : M Bytes :=
-  if x < 0 ∨ k < 0 then .error .other else .ok (beEncode k.toNat x.toNat)
+  if x < 0 then .error .overflowError else .ok (beEncode k.toNat x.toNat)
 
 /-- an RSAKey object as far as decrypt looks at it -/
 structure RsaSelf where
@@ -104,6 +112,14 @@ structure RsaSelf where
   hmac : Bytes → Bytes → Bytes
   /-- `_rawPrivateKeyOp` -/
   privOp : Int → Int
+  /-- `_rawPublicKeyOp` -/
+  pubOp : Int → Int := fun _ => 0
+  /-- `secureHash(data, name)` for a variable algorithm name -/
+  hashFn : String → Bytes → Bytes := fun _ _ => []
+  /-- `getattr(hashlib, name)().digest_size`; `none` = no such hash (AttributeError) -/
+  digestSize : String → Option Int := fun _ => none
+  /-- what `getRandomBytes(n)` returns in this call -/
+  random : Int → Bytes := fun _ => []
 
 /-- `not hasattr(self, '_key_hash') or not self._key_hash` -/
 def keyHashMissing (s : RsaSelf) : Bool :=
@@ -134,4 +150,75 @@ namespace Tls.PyE
 def lenOpt (x : Option Bytes) : M Int := match x with | some b => .ok (Py.len b) | none => .error .other
 def getItemOpt (x : Option Bytes) (i : Int) : M Int :=
   match x with | some b => (Py.getItem b i : Option Int) | none => .error .other
+end Tls.PyE
+
+/-! ### int methods, number <-> bytes (runtime primitives of translate/gen_cryptomath.py) -/
+namespace Tls.PyE
+open Tls
+
+/-- `x.bit_length()` (of |x| for negative x) -/
+def bitLength (x : Int) : Int := (Tls.RsaDec.numBits x.natAbs : Int)
+
+/-- `x.to_bytes(length=length, byteorder=order)` (unsigned): ValueError for a negative length or an
+    unknown byte order, OverflowError for a negative `x` or one that does not fit -/
+def intToBytes (x length : Int) (order : String) : M Bytes :=
+  if length < 0 then .error .valueError
+  else if order ≠ "big" ∧ order ≠ "little" then .error .valueError
+  else if x < 0 then .error .overflowError
+  else if x.toNat ≥ 256 ^ length.toNat then .error .overflowError
+  else .ok (if order = "big" then beEncode length.toNat x.toNat else (beEncode length.toNat x.toNat).reverse)
+
+/-- `int.from_bytes(b, order)` (unsigned) -/
+def intFromBytes (b : Bytes) (order : String) : M Int :=
+  if order = "big" then .ok (beDecode b : Int)
+  else if order = "little" then .ok (beDecode b.reverse : Int)
+  else .error .valueError
+
+/-- the int an `Optional[int]` holds (TypeError on None when used as a number) -/
+def optGet {α : Type} (o : Option α) : M α := match o with | some a => .ok a | none => .error .other
+
+/-- `divmod(a, b)` -/
+def divmod (a b : Int) : M (Int × Int) :=
+  if b = 0 then .error .zeroDivisionError else .ok (Int.fdiv a b, Int.fmod a b)
+
+/-- `int(bool(x))` for an int `x` -/
+def intBool (x : Int) : Int := if x = 0 then 0 else 1
+
+end Tls.PyE
+
+/-! ### lists of ints, byte strings, dictionaries (runtime primitives of translate/gen_rsapad.py) -/
+namespace Tls.PyE
+open Tls
+
+/-- `[v] * n` (empty for n ≤ 0) -/
+def listRepeat (v n : Int) : List Int := List.replicate n.toNat v
+/-- `l[:n]` for a list -/
+def listTake (l : List Int) (n : Int) : List Int :=
+  if n < 0 then l.take (l.length - (-n).toNat) else l.take n.toNat
+def lenL (l : List Int) : Int := l.length
+/-- `[b for b in data if b]` -/
+def filterNonZero (b : Bytes) : List Int := (iterBytes b).filter fun v => v != 0
+/-- `bytearray(n)`: n zero bytes, ValueError for a negative n -/
+def zeros (n : Int) : M Bytes := if n < 0 then .error .valueError else .ok (List.replicate n.toNat 0)
+/-- `any(x != 0 for x in b)` / `any(b)` -/
+def anyNonZero (b : Bytes) : Bool := b.any fun v => v != 0
+/-- `s.lower()` -/
+def lower (s : String) : String := s.toLower
+/-- `b[i] = v` (in place; the translator only allows it on a fresh local) -/
+def setItem (b : Bytes) (i v : Int) : M Bytes :=
+  let j := if i < 0 then i + b.length else i
+  if j < 0 ∨ j ≥ b.length then .error .indexError
+  else if v < 0 ∨ v ≥ 256 then .error .valueError
+  else .ok (b.set j.toNat (UInt8.ofNat v.toNat))
+/-- `b[i]` with IndexError -/
+def getItemE (b : Bytes) (i : Int) : M Int :=
+  match Py.getItem b i with | some v => .ok v | none => .error .indexError
+/-- `d[k]` / `k in d` for a dict literal with string keys -/
+def dictGet (d : List (String × Bytes)) (k : String) : M Bytes :=
+  match d.lookup k with | some v => .ok v | none => .error .other
+def dictHas (d : List (String × Bytes)) (k : String) : Bool := (d.lookup k).isSome
+/-- `getattr(hashlib, name)().digest_size` -/
+def getDigestSize (s : RsaSelf) (name : String) : M Int :=
+  match s.digestSize name with | some n => .ok n | none => .error .other
+
 end Tls.PyE
